@@ -649,9 +649,9 @@ func RunPubSub(w *bufio.Writer, seed int64, tier string, replay string) error {
 			return err
 		}
 	}
-	n, length := 120, 30
+	n, length := 300, 40
 	if tier == "thorough" {
-		n, length = 1500, 60
+		n, length = 2500, 60
 	}
 	g := NewGen(seed)
 	for i := 0; i < n; i++ {
